@@ -87,6 +87,9 @@ func (x *Exec) logCall(st *State, key string, args []Val, ts []types.Type) {
 		st.setComp(name, Sto(arr, n, term))
 	}
 	st.setComp("N!"+sanitize(key), Add(n, TInt(1)))
+	// direct calls made by the function under verification itself (never havoc'd by callee contracts)
+	d := st.comp("D!"+sanitize(key), SI)
+	st.setComp("D!"+sanitize(key), Add(d, TInt(1)))
 }
 
 // logRet records the (scalar) result of the latest logged call of key.
@@ -265,6 +268,17 @@ func (x *Exec) applyContract(st *State, c *Contract, fn *ssa.Function, sig *type
 			_ = fv
 		}
 	}
+	// values that live on the Go side (local cells, closures) escape into the
+	// heap before the pre-state is fixed
+	for i, a := range args {
+		switch a.(type) {
+		case *PLocal, *CloVal, *FuncVal:
+			args[i] = st.scalar(a, nil)
+			if n := names[i]; n != "" && n != "_" {
+				e.vars[n] = TV{args[i], ptypes[i]}
+			}
+		}
+	}
 	pre := st.snapshot()
 	preWM := st.wmNow()
 	e.old = pre
@@ -374,9 +388,10 @@ func x_ifaceRecvType(c *Contract) types.Type { return nil }
 // ---------- locations (modifies) ----------
 
 type Loc struct {
-	comp string
-	sort string // sort of the component
-	ref  *Term  // nil: whole scalar component / any index
+	comp  string
+	sort  string // sort of the component
+	ref   *Term  // nil: whole scalar component / any index
+	above *Term  // with ref == nil: only objects with ref > above (objects allocated since)
 }
 
 func (x *Exec) locsOf(e *Env, clauses []*Clause) []Loc {
@@ -399,7 +414,7 @@ func (x *Exec) evalLoc(e *Env, le Expr, cl *Clause) (out []Loc) {
 		}
 	}()
 	st := e.st
-	mk := func(comp, sort string, ref Term) Loc { r := ref; return Loc{comp, sort, &r} }
+	mk := func(comp, sort string, ref Term) Loc { r := ref; return Loc{comp: comp, sort: sort, ref: &r} }
 	var res []Loc
 	e.withHeap(e.old, func() TV {
 		switch v := le.(type) {
@@ -416,14 +431,14 @@ func (x *Exec) evalLoc(e *Env, le Expr, cl *Clause) (out []Loc) {
 				res = append(res, mk(hn, hasSort, ref), mk(vn, ArrSort(SI, ArrSort(SI, s)), ref))
 			case "calls":
 				key := exprKey(v.Args[0])
-				res = append(res, Loc{"N!" + sanitize(key), SI, nil})
+				res = append(res, Loc{comp: "N!" + sanitize(key), sort: SI})
 				if sig := x.eng.callSigs[key]; sig != nil {
 					for j, t := range sig.types {
 						s := sortOf(t)
 						if s == "" {
 							s = SI
 						}
-						res = append(res, Loc{fmt.Sprintf("A!%s!%d", sanitize(key), j), ArrSort(SI, s), nil})
+						res = append(res, Loc{comp: fmt.Sprintf("A!%s!%d", sanitize(key), j), sort: ArrSort(SI, s)})
 					}
 				}
 			case "fields":
@@ -462,7 +477,17 @@ func (x *Exec) evalLoc(e *Env, le Expr, cl *Clause) (out []Loc) {
 				if g == nil {
 					sfail("unknown ghost %s", name)
 				}
-				res = append(res, Loc{"G!" + name, g.Sort, nil})
+				res = append(res, Loc{comp: "G!" + name, sort: g.Sort})
+			case "newobjs":
+				// every field of objects of struct type T allocated after the old state
+				t := e.resolveType(exprKey(v.Args[0]))
+				if !isStruct(t) {
+					sfail("newobjs() needs a struct type")
+				}
+				wm := e.oldWM
+				for _, lf := range leaves(t) {
+					res = append(res, Loc{comp: fieldComp(t, lf.path), sort: ArrSort(SI, sortOf(lf.typ)), above: &wm})
+				}
 			case "cell":
 				p := e.eval(v.Args[0])
 				pt := under(p.T).(*types.Pointer)
@@ -542,6 +567,14 @@ func (x *Exec) havocLocsEnv(st *State, e *Env, clauses []*Clause) {
 }
 
 func (x *Exec) havocLoc(st *State, l Loc) {
+	if l.ref == nil && l.above != nil {
+		cur := st.comp(l.comp, l.sort)
+		n := st.havocComp(l.comp, l.sort)
+		x.counter++
+		r := Term{fmt.Sprintf("q.r!%d", x.counter), SI}
+		st.assume(Forall([]Term{r}, Imp(Le(r, *l.above), Eq(Sel(n, r), Sel(cur, r)))))
+		return
+	}
 	if l.ref == nil {
 		st.havocComp(l.comp, l.sort)
 		return
@@ -560,6 +593,7 @@ func (x *Exec) havocLocs(st *State, fr *Frame, clauses []*Clause, _ *Env) {
 	e := x.envFor(st, fr, c)
 	e.locals = true
 	e.old = st.snapshot()
+	e.oldWM = x.loopEntryWM
 	for _, l := range x.locsOf(e, clauses) {
 		x.havocLoc(st, l)
 	}
@@ -589,13 +623,13 @@ func (x *Exec) frameCheck(st *State, fr *Frame, base map[string]Term, baseWM Ter
 		if strings.HasPrefix(comp, "C!") || strings.HasPrefix(comp, "B!") {
 			// cells and closure objects: only fresh ones may be written unless declared
 		}
-		if strings.HasPrefix(comp, "A!") || strings.HasPrefix(comp, "R!") {
+		if strings.HasPrefix(comp, "A!") || strings.HasPrefix(comp, "R!") || strings.HasPrefix(comp, "D!") || strings.HasPrefix(comp, "MU!") {
 			continue // argument logs are covered by their N! counter
 		}
 		ls := byComp[comp]
 		whole := false
 		for _, l := range ls {
-			if l.ref == nil {
+			if l.ref == nil && l.above == nil {
 				whole = true
 			}
 		}
@@ -610,7 +644,11 @@ func (x *Exec) frameCheck(st *State, fr *Frame, base map[string]Term, baseWM Ter
 			r := Term{fmt.Sprintf("q.r!%d", x.counter), SI}
 			var except []Term
 			for _, l := range ls {
-				except = append(except, Eq(r, *l.ref))
+				if l.ref != nil {
+					except = append(except, Eq(r, *l.ref))
+				} else if l.above != nil {
+					except = append(except, Gt(r, *l.above))
+				}
 			}
 			except = append(except, Gt(r, baseWM))
 			goal = Forall([]Term{r}, Or(append(except, Eq(Sel(cur, r), Sel(b, r)))...))
